@@ -43,7 +43,7 @@ def check(ctx):
     ctx.run(r15_6, g)
     ctx.run(r15_7, g)
     ctx.run(r15_8, g)
-    ctx.run(r15_9, g)
+    ctx.run(r15_9, g, _independent=True)  # the marks discipline is read from the methods themselves
     ctx.run(r15_10, g)
     ctx.run(r15_11, g)
     ctx.not_decided += [
@@ -483,11 +483,37 @@ def r15_6(ctx, g):
             bad = {"low[child]": env["low"], "discovery[parent]": env["disc"], "cut": v}
     ctx.check(bad is None, "R15.6", f.where(cut), "a finished child closes a component (and marks its parent as articulation point) exactly when low[child] >= discovery[parent]; bridges (>) and cycles through the parent (=) both cut", key_of(f, f"cut-criterion:{norm(cut.test)}"), **({"witness": bad} if bad else {}))
     # low-link updates: back edge -> min with discovery of the target; tree edge finished -> min with the child's low
-    src = norm(f.node)
-    ok = "low[child] = min(low[child], discovery[nn])" in src and "low[parent] = min(low[parent], low[child])" in src
-    ctx.check(ok, "R15.6", f.where(), "low-links are lowered by back edges (discovery of the target) and propagated from a finished child to its parent", key_of(f, "low-link-updates"))
-    root = "if root_children > 1" in src and "artic_points.add(n)" in src
-    ctx.check(root, "R15.6", f.where(), "the DFS root is an articulation point exactly when it has more than one DFS child", key_of(f, "root-rule"))
+    # every store into low[...] after its initialisation lowers it: low[x] = min(low[x], v) — also spelled
+    # `if v < low[x]: low[x] = v` / `if low[x] > v: low[x] = v`
+    updates = set()
+    others = []
+    for st in walk_stmts(f.node.body):
+        if isinstance(st, ast.If) and not st.orelse and len(st.body) == 1 and isinstance(st.body[0], ast.Assign) and isinstance(st.test, ast.Compare) and len(st.test.ops) == 1:
+            a = st.body[0]
+            tgt, val = norm(a.targets[0]), norm(a.value)
+            l_, r_ = norm(st.test.left), norm(st.test.comparators[0])
+            if tgt.startswith("low[") and ((isinstance(st.test.ops[0], ast.Lt) and (l_, r_) == (val, tgt)) or (isinstance(st.test.ops[0], ast.Gt) and (l_, r_) == (tgt, val))):
+                updates.add((tgt, val))
+    guarded = {id(st.body[0]) for st in walk_stmts(f.node.body) if isinstance(st, ast.If) and not st.orelse and len(st.body) == 1}
+    for st in walk_stmts(f.node.body):
+        if isinstance(st, ast.Assign) and len(st.targets) == 1 and norm(st.targets[0]).startswith("low["):
+            tgt = norm(st.targets[0])
+            v = st.value
+            if isinstance(v, ast.Call) and norm(v.func) == "min" and len(v.args) == 2 and tgt in (norm(v.args[0]), norm(v.args[1])):
+                other = norm(v.args[1]) if norm(v.args[0]) == tgt else norm(v.args[0])
+                updates.add((tgt, other))
+            elif isinstance(v, ast.Call) and norm(v.func) == "min":
+                updates.add((tgt, norm(v)))  # a minimum that does not include the low-link itself: not a lowering of it
+            elif id(st) in guarded and (tgt, norm(v)) in updates:
+                pass
+            elif norm(v).startswith("discovery[") or isinstance(v, ast.Name) or isinstance(v, ast.BinOp) or (isinstance(v, ast.Call) and norm(v.func) == "len"):
+                pass  # initialisation with the node's own discovery number
+            else:
+                others.append(norm(st))
+    want = {("low[child]", "discovery[nn]"), ("low[parent]", "low[child]")}
+    if others or not updates:
+        raise AnalysisError("R15.6", f.where(), f"cannot read the low-link updates of biccs ({others[:2]})")
+    ctx.check(want <= updates and not (updates - want), "R15.6", f.where(), "low-links are lowered by back edges (discovery of the target) and propagated from a finished child to its parent", key_of(f, f"low-link-updates:{sorted(updates - want)}:{sorted(want - updates)}"), updates=sorted(updates))
 
 
 def r15_7(ctx, g):
@@ -700,6 +726,46 @@ def r15_9(ctx, g):
             continue
         leavers = sorted(h.qualname for h in methods if not same_func(h, f) and any(isinstance(st, ast.Assign) and isinstance(st.targets[0], ast.Attribute) and st.targets[0].attr == "visited" and const_value(st.value, "?") is True for st in walk_own(h.node)) and not any(same_func(h, cf) for cf in callers))
         ctx.violated("R15.9", f.where(), f"{f.qualname} reads the traversal marks without clearing them first: marks left by an earlier traversal of the same graph object ({', '.join(leavers) or 'another traversal'}) hide those nodes, e.g. the components of the graph come out empty or incomplete", key_of(f, "reads-stale-marks"))
+
+    # (c) a method that uses the marks as its memory *across* traversals (it tests the mark of each node between calls of a
+    # traversal, as all_components does) must call a traversal that leaves the marks alone
+    def clears_on_call(h, call, depth=0):
+        st_ = resets_first(h) if reads(h) else False
+        if st_ is True:
+            return True
+        if st_ == "flag":
+            flag = next(s_.test.id for s_ in h.node.body if isinstance(s_, ast.If) and isinstance(s_.test, ast.Name) and s_.test.id in h.params and any(isinstance(x, ast.Expr) and isinstance(x.value, ast.Call) and same_func(repo.resolve_call(h, x.value), rs) for x in s_.body))
+            ba = repo.bound_args(h, call) if hasattr(repo, "bound_args") else None
+            given = None
+            params = [p_ for p_ in h.params if p_ != "self"]
+            if flag in params:
+                i_ = params.index(flag)
+                if i_ < len(call.args):
+                    given = call.args[i_]
+            for k in call.keywords:
+                if k.arg == flag:
+                    given = k.value
+            return given is None or const_value(given, "?") is not False
+        if depth < 2:
+            for c2 in walk_own(h.node):
+                if isinstance(c2, ast.Call):
+                    k_ = repo.resolve_call(h, c2)
+                    if k_ is not None and k_.cls == h.cls and not same_func(k_, h) and not same_func(k_, rs) and any(same_func(k_, r_) for r_ in readers) and clears_on_call(k_, c2, depth + 1):
+                        return True
+        return False
+
+    for f in methods:
+        for lp in walk_own(f.node):
+            if not isinstance(lp, (ast.For, ast.While)):
+                continue
+            tests = [n for n in ast.walk(lp) if isinstance(n, ast.Attribute) and n.attr == "visited" and isinstance(n.ctx, ast.Load)]
+            if not tests:
+                continue
+            for c in ast.walk(lp):
+                if isinstance(c, ast.Call):
+                    h = repo.resolve_call(f, c)
+                    if h is not None and h.cls == f.cls and not same_func(h, f) and not same_func(h, rs) and clears_on_call(h, c):
+                        ctx.violated("R15.9", f.where(c), f"{f.qualname} remembers the nodes it has dealt with in the traversal marks (it tests `.visited` between calls), but `{norm(c)[:50]}` clears all marks every time it is called: nodes of components found earlier look unvisited again, so a component whose nodes are not contiguous in insertion order is reported more than once", key_of(f, f"marks-cleared-between-calls:{norm(c.func)}"))
 
 
 
